@@ -52,14 +52,21 @@ var arithFns = []arithFn{
 	{"seqio/origin.go", "", "toOriginLength", "toOriginLength", false},
 	{"seqio/origin.go", "", "fromOriginLength", "fromOriginLength", false},
 	{"location.go", "Between", "Expand", "betweenExpand", false},
+	{"location.go", "Between", "Shift", "betweenShift", false},
 	{"location.go", "Between", "Reverse", "betweenReverse", false},
+	{"location.go", "Between", "Normalize", "betweenNormalize", false},
 	{"location.go", "Point", "Expand", "pointExpand", false},
+	{"location.go", "Point", "Shift", "pointShift", false},
 	{"location.go", "Point", "Reverse", "pointReverse", false},
+	{"location.go", "Point", "Normalize", "pointNormalize", false},
 	{"location.go", "Ranged", "Expand", "rangedExpand", false},
 	{"location.go", "Ranged", "Shift", "rangedShift", false},
+	{"location.go", "Ranged", "Reverse", "rangedReverse", false},
+	{"location.go", "Ranged", "Normalize", "rangedNormalize", false},
 	{"location.go", "Ambiguous", "Expand", "ambiguousExpand", false},
 	{"location.go", "Ambiguous", "Shift", "ambiguousShift", false},
 	{"location.go", "Ambiguous", "Reverse", "ambiguousReverse", false},
+	{"location.go", "Ambiguous", "Normalize", "ambiguousNormalize", false},
 	{"modifier.go", "Head", "Apply", "headApply", true},
 	{"modifier.go", "Tail", "Apply", "tailApply", true},
 	{"modifier.go", "HeadTail", "Apply", "headTailApply", true},
@@ -223,6 +230,15 @@ func (e *env) expr(x ast.Expr) val {
 		case token.REM:
 			return val{typ: "int", expr: fmt.Sprintf("(Int.tmod %s %s)", l.expr, r.expr)}
 		case token.LSS, token.GTR, token.LEQ, token.GEQ, token.EQL, token.NEQ:
+			if n.Op == token.EQL && l.fields != nil && l.typ == r.typ {
+				// struct comparison: all leaves equal
+				ls, rs := flat(l), flat(r)
+				var parts []string
+				for i := range ls {
+					parts = append(parts, fmt.Sprintf("(%s = %s)", asScalar(ls[i]), asScalar(rs[i])))
+				}
+				return val{typ: "prop", expr: "(" + strings.Join(parts, " ∧ ") + ")"}
+			}
 			if l.typ != "int" || r.typ != "int" {
 				refuse("comparison of %s and %s", l.typ, r.typ)
 			}
@@ -319,6 +335,14 @@ func (e *env) call(n *ast.CallExpr) val {
 		refuse("call of %s", f.Name)
 	case *ast.SelectorExpr:
 		recv := e.expr(f.X)
+		if id, ok := f.X.(*ast.Ident); ok && recv.typ == "int" && e.self != nil && id.Name == e.recvVar {
+			// a method of the function's own scalar receiver type (Between, Point)
+			for _, fn := range e.fns {
+				if fn.recv == e.self.recv && fn.name == f.Sel.Name && !fn.fuel {
+					return val{typ: "loc", expr: "(" + fn.lean + " " + strings.Join(append([]string{recv.expr}, ints()...), " ") + ")"}
+				}
+			}
+		}
 		if f.Sel.Name == "Len" && recv.typ == "Ranged" && len(args) == 0 {
 			return val{typ: "int", expr: fmt.Sprintf("(%s - %s)", recv.fields["End"].expr, recv.fields["Start"].expr)}
 		}
@@ -729,6 +753,83 @@ func (e *env) blockK(stmts []ast.Stmt, k func(en *env) string) string {
 	return ""
 }
 
+// desugar rewrites, in place, every tagged `switch tag { case c: … }` whose tag is a plain
+// variable or field selection into the equivalent chain `if tag == c {…} else {…}`
+// (clauses with one value each; no fallthrough; a missing default is an empty else).
+func desugar(list []ast.Stmt) {
+	for i, s := range list {
+		switch n := s.(type) {
+		case *ast.IfStmt:
+			desugar(n.Body.List)
+			if b, ok := n.Else.(*ast.BlockStmt); ok {
+				desugar(b.List)
+			}
+		case *ast.SwitchStmt:
+			for _, c := range n.Body.List {
+				desugar(c.(*ast.CaseClause).Body)
+			}
+			if n.Tag == nil {
+				continue
+			}
+			if n.Init != nil || !pureSelector(n.Tag) {
+				refuse("tagged switch with init or a tag that is not a variable / field")
+			}
+			var chain ast.Stmt
+			var def []ast.Stmt
+			var clauses []*ast.CaseClause
+			for _, c := range n.Body.List {
+				cc := c.(*ast.CaseClause)
+				if cc.List == nil {
+					def = cc.Body
+					continue
+				}
+				if len(cc.List) != 1 {
+					refuse("case list")
+				}
+				for _, b := range cc.Body {
+					if br, ok := b.(*ast.BranchStmt); ok {
+						refuse("branch statement %s in a switch", br.Tok)
+					}
+				}
+				clauses = append(clauses, cc)
+			}
+			var tail ast.Stmt
+			if def != nil {
+				tail = &ast.BlockStmt{List: def}
+			}
+			for j := len(clauses) - 1; j >= 0; j-- {
+				is := &ast.IfStmt{
+					Cond: &ast.BinaryExpr{X: n.Tag, Op: token.EQL, Y: clauses[j].List[0]},
+					Body: &ast.BlockStmt{List: clauses[j].Body},
+				}
+				if tail != nil {
+					if b, ok := tail.(*ast.BlockStmt); ok {
+						is.Else = b
+					} else {
+						is.Else = &ast.BlockStmt{List: []ast.Stmt{tail}}
+					}
+				}
+				tail = is
+			}
+			chain = tail
+			if chain == nil {
+				chain = &ast.BlockStmt{}
+			}
+			list[i] = chain
+		}
+	}
+}
+
+func pureSelector(x ast.Expr) bool {
+	switch n := x.(type) {
+	case *ast.Ident:
+		return true
+	case *ast.SelectorExpr:
+		return pureSelector(n.X)
+	}
+	return false
+}
+
 func goType(x ast.Expr) string {
 	if id, ok := x.(*ast.Ident); ok {
 		switch id.Name {
@@ -819,6 +920,17 @@ func genArithGroup(repo, group string) (text string, err error) {
 			return true
 		})
 		spec := spec
+		func() {
+			defer func() {
+				if r := recover(); r != nil {
+					if rf, ok := r.(refusal); ok {
+						panic(refusal{fmt.Sprintf("%s %s.%s: %s", spec.file, spec.recv, spec.name, rf.msg)})
+					}
+					panic(r)
+				}
+			}()
+			desugar(decl.Body.List)
+		}()
 		e := &env{vars: map[string]val{}, fns: fns, self: &spec}
 		var params []string
 		if spec.recv != "" {
